@@ -290,7 +290,11 @@ def decompose_and_order(graph, component, component_name, bo_start=0):
         node_name for node_name in traversal if scaffold_node_types[node_name] == "s"
     ]
     # check that all scaffold nodes carry the same sequence name (SN), i.e. all came for the linear reference
-    assert len(set(new_graph[n].tags["SN"] for n in traversal_scaffold_only)) == 1
+    if len(set(new_graph[n].tags["SN"] for n in traversal_scaffold_only)) != 1:
+        logger.warning(
+            f"Error: In Chromosome {component_name}, the scaffold nodes do not all carry the same sequence name (SN). Skipping this chromosome"
+        )
+        return None, None, None, None, None
     # I save tags as key:(type, value), so "SO":(i, '123')
     coordinates = list(int(new_graph[n].tags["SO"][1]) for n in traversal_scaffold_only)
 
@@ -300,7 +304,11 @@ def decompose_and_order(graph, component, component_name, bo_start=0):
         traversal_scaffold_only.reverse()
         coordinates.reverse()
     for i in range(len(coordinates) - 1):
-        assert coordinates[i] < coordinates[i + 1]
+        if not coordinates[i] < coordinates[i + 1]:
+            logger.warning(
+                f"Error: In Chromosome {component_name}, the scaffold nodes are not in increasing reference order along the chain. Skipping this chromosome"
+            )
+            return None, None, None, None, None
     # compute dictionary mapping each node name to the corresponding "bubble order" and "node order" (BO,NO)
     node_order = dict()
     bo = bo_start
